@@ -524,3 +524,30 @@ Inductive cli_outcome :=
 
 Definition cli_json (payload : json) : cli_outcome :=
   if encodable payload then CliJson payload else CliError.
+
+(* ------------------------------------------------------------------------------------------ *)
+(* dict keys.  The serialiser applies str() to every dict key (and json.dumps would stringify int /
+   float / bool / None keys anyway), so from_json can only return str keys: a dict with a non-string
+   key is never restored as itself.                                                              *)
+Definition key_is_str (k : key) : bool := match k with KStr _ => true | KObj _ => false end.
+
+Fixpoint keys_are_strings (v : val) : bool :=
+  match v with
+  | VList l | VTuple l | VSet l => forallb keys_are_strings l
+  | VDict kvs => forallb (fun kv => key_is_str (fst kv) && keys_are_strings (snd kv)) kvs
+  | VData _ fl => forallb (fun nv => keys_are_strings (snd nv)) fl
+  | _ => true
+  end.
+
+(* the value itself up to container kind only: tuple/set -> list, bytearray -> bytes, BytesIO rewound;
+   every dict keeps its keys (with their types), its entries and their order — so tables built from
+   row dicts (XlsSheet.get_table / get_dim), unit texts and payloads are those of the original *)
+Fixpoint norm (v : val) : val :=
+  match v with
+  | VBytearray b => VBytes b
+  | VBytesIO c _ => VBytesIO c 0
+  | VList l | VTuple l | VSet l => VList (map norm l)
+  | VDict kvs => VDict (map (fun kv => let '(k, x) := kv in (k, norm x)) kvs)
+  | VData c fl => VData c (map (fun nv => let '(n, x) := nv in (n, norm x)) fl)
+  | x => x
+  end.
